@@ -9,6 +9,7 @@ import (
 	"golang.org/x/tools/go/ssa"
 
 	"ivgsa/internal/cfgx"
+	"ivgsa/internal/poly"
 	"ivgsa/internal/sym"
 )
 
@@ -142,6 +143,8 @@ func ruleC09_4(c *Ctx) {
 	// 2. the selection loop(s): single exit through the counted test
 	seenH := map[int]bool{}
 	var selBound *sym.Term
+	_ = selBound
+	selRange, okR := "", false
 	for _, f := range flags {
 		if seenH[f.header] {
 			continue
@@ -162,7 +165,8 @@ func ruleC09_4(c *Ctx) {
 		R.Check(exits == 0, fmt.Sprintf("encode.(*Encoder).Reset#selection-loop@block%d:single-exit", f.header), c.Pos(reset.Blocks[f.header].Instrs[0]), "the loop is left only by its counted test, so every explicit entry is examined", fmt.Sprintf("%d other exits", exits))
 		if li, ok := fr.Loop(f.header); ok {
 			selBound = li.Bound
-			R.Check(li.Step == 1 && li.Op.String() == "<", fmt.Sprintf("encode.(*Encoder).Reset#selection-loop@block%d:range", f.header), pos, "visits indices in steps of one up to the bound", fmt.Sprintf("step %d op %s", li.Step, li.Op))
+			selRange, okR = loopRangeKey(li)
+			R.Check(okR, fmt.Sprintf("encode.(*Encoder).Reset#selection-loop@block%d:range", f.header), pos, "visits indices in steps of one from a constant start up to a bound", fmt.Sprintf("step %d op %s", li.Step, li.Op))
 		}
 	}
 	// 3. the writing loops
@@ -208,7 +212,11 @@ func ruleC09_4(c *Ctx) {
 		// range of the writing loop
 		h := ev.Loops[len(ev.Loops)-1]
 		li, okL := fr.Loop(h.Header)
-		sameRange := okL && selBound != nil && sym.Eq(li.Bound, selBound) && li.Step == 1
+		sameRange := false
+		if okL && okR {
+			wr, okW := loopRangeKey(li)
+			sameRange = okW && wr == selRange
+		}
 		var elem *sym.Term
 		if okL {
 			elem = sym.Index(sym.Atom("param:palette", nil), li.IndexVal, nil)
@@ -329,4 +337,154 @@ func mentionsCall(v *sym.Term, name string, elem *sym.Term) bool {
 func sameBranch(hdr, loopEv *sym.Event) bool {
 	hb, lb := hdr.Site.Block(), loopEv.Site.Block()
 	return hb != nil && lb != nil && hb.Dominates(lb)
+}
+
+// paletteFlags evaluates Encoder.Reset once with the colour predicates and encoders opaque and returns, for every
+// loop-carried boolean whose update is semantically "flag AND IsK(palette[i])" with initial value true, the name
+// of its predicate; plus the run itself. Shared by C09.1's guard discovery (term level, independent of how the
+// conjunction is spelled in the source).
+type paletteFlagModel struct {
+	run   *encRun
+	preds map[string]string // flag atom key -> predicate name
+}
+
+func (c *Ctx) paletteFlags() *paletteFlagModel {
+	if c.palFlags != nil {
+		return c.palFlags
+	}
+	m := c.newEncModel()
+	reset := c.Method("encode", "Encoder", "Reset", true)
+	pm := &paletteFlagModel{preds: map[string]string{}}
+	c.palFlags = pm
+	if !m.ok || reset == nil {
+		return pm
+	}
+	run := m.run(reset, nil, nil, func(h *encHooks) {
+		for _, o := range []string{"Is1", "Is2", "Is3", "Encode1", "Encode2"} {
+			h.opaque[o] = true
+		}
+	})
+	pm.run = run
+	fr := run.fr
+	for _, h := range fr.Headers() {
+		for _, ins := range reset.Blocks[h].Instrs {
+			phi, ok := ins.(*ssa.Phi)
+			if !ok {
+				break
+			}
+			if b, isB := phi.Type().Underlying().(*types.Basic); !isB || b.Kind() != types.Bool {
+				continue
+			}
+			v := fr.Val(phi)
+			if v == nil || v.Op != "atom" {
+				continue
+			}
+			init, _ := phiEdges(fr, phi)
+			if len(init) != 1 {
+				continue
+			}
+			if bv, isC := init[0].BoolVal(); !isC || !bv {
+				continue
+			}
+			next := gatedBackValue(fr, reset, h, phi)
+			if next == nil {
+				continue
+			}
+			var predCall *sym.Term
+			sym.Walk(next, func(x *sym.Term) bool {
+				if x.Op == "call" && strings.HasPrefix(x.Name, "Is") {
+					predCall = x
+				}
+				return true
+			})
+			if predCall != nil && equivalent(next, sym.And(v, predCall)) {
+				pm.preds[v.Key()] = predCall.Name
+			}
+		}
+	}
+	return pm
+}
+
+// gatedBackValue: the value a loop-header phi receives round the loop, gated by the back edges' conditions, within
+// one iteration (the header's own condition and reach assumed).
+func gatedBackValue(fr *sym.Frame, fn *ssa.Function, h int, phi *ssa.Phi) *sym.Term {
+	var next *sym.Term
+	hb := fn.Blocks[h]
+	for i, p := range hb.Preds {
+		if !hb.Dominates(p) || !fr.Executable(p.Index, h) {
+			continue
+		}
+		g := fr.EdgeGuard(p.Index, h)
+		ev := fr.EdgeVal(phi, i)
+		if g == nil || ev == nil {
+			continue
+		}
+		if next == nil {
+			next = ev
+		} else {
+			next = sym.Ite(g, ev, next)
+		}
+	}
+	if next == nil {
+		return nil
+	}
+	if hc, bodyOnTrue, okH := fr.HeaderCond(h); okH {
+		next = sym.Assume(next, hc, bodyOnTrue)
+	}
+	if r := fr.Reach(h); r != nil {
+		for _, l := range guardLits(r) {
+			if l.Op == "not" {
+				next = sym.Assume(next, l.Args[0], false)
+			} else {
+				next = sym.Assume(next, l, true)
+			}
+		}
+	}
+	return next
+}
+
+// guardingPredicates: the predicates whose "holds for every entry" flag is known true where the call is made.
+func (pm *paletteFlagModel) guardingPredicates(call ssa.Instruction) ([]string, bool) {
+	if pm.run == nil {
+		return nil, false
+	}
+	for _, ev := range pm.run.in.Events {
+		if ev.Kind != "opaquecall" || ev.Site != call {
+			continue
+		}
+		var out []string
+		for _, l := range guardLits(ev.Guard) {
+			if p, ok := pm.preds[l.Key()]; ok {
+				out = append(out, p)
+			}
+		}
+		return out, true
+	}
+	return nil, false
+}
+
+// loopRangeKey describes the index range a counted loop visits, independent of how the loop is written:
+// "first..last" with last in polynomial normal form (range-over-slice, i < n+1 and i <= n give the same key).
+func loopRangeKey(li *sym.LoopInfo) (string, bool) {
+	if li.Step != 1 {
+		return "", false
+	}
+	i0, isC := li.Init.Int64()
+	if !isC {
+		return "", false
+	}
+	env := poly.NewEnv()
+	b, ok := env.One(li.Bound)
+	if !ok {
+		return "", false
+	}
+	switch li.Op.String() {
+	case "<":
+		b = b.Sub(poly.RatInt(1))
+	case "<=":
+	default:
+		return "", false
+	}
+	// the loop tests index+Offset against the bound: the element index is phi+Offset as well (IndexVal)
+	return fmt.Sprintf("%d..%s", i0+li.Offset, b.String()), true
 }
